@@ -5,6 +5,7 @@ pub mod literal;
 pub mod numfmt;
 pub mod parser;
 pub mod print;
+pub mod resolve;
 pub mod value;
 
 use interp::{Interp, Outcome};
